@@ -15,6 +15,27 @@ CHECKS = {
          "same specification, with the C06 clauses evaluated on each observed history.",
     note="trusted: TLC, the 130-line C driver, in-repo msgb/talloc; bounds: MC payload<=2 octets/3 messages/RxSize 3; "
          "real-size runs are sampled, not exhaustive"),
+ "C01": dict(
+    level="model_checking", design="4 (C01/C04)",
+    technique="TLA+ spec TrxdPdu (TRXD layout) model-checked with TLC for the scaled layout; records of the real gen_msg/parse_msg judged by TLC against the spec",
+    text="TLC proves the round-trip law on the scaled-down layout (GB=3) for every boundary header x burst family, i.e. that the "
+         "layout incl. v0 length guessing is uniquely decodable; for the real code every generated valid message (all versions, "
+         "modulations, TSC sets, NOPE, legacy padding, real burst lengths) is encoded and re-parsed and TLC compares every field.",
+    note="trusted: TLC, the JSON projection in harness/py/trxd_drv.py; real-length bursts are sampled (structured + random), not exhaustive"),
+ "C04": dict(
+    level="model_checking", design="4 (C01/C04)",
+    technique="TLA+ spec TrxdPdu written from the protocol description; TLC judges octets/fields recorded from data_msg.py and from trxcon's unmodified trx_if.c (ASan/UBSan host build)",
+    text="The layout is an independent TLA+ transcription of the TRXD description; TLC checks it for internal consistency (MC) and "
+         "evaluates it on records of both real implementations: octets of gen_msg, parse_msg on mutated datagrams, trxcon's "
+         "burst indication for every Python-produced v0 datagram and Python's parse of every burst trxcon emits.",
+    note="trusted: TLC, trxd_drv.py, drv_trxcon.c and the osmo_fsm/socket stand-in headers; non-canonical datagram lengths only constrain header fields + prefix"),
+ "C13": dict(
+    level="model_checking", design="4 (C13)",
+    technique="TLC enumerates the boundary product of message fields from ValidGen.tla with the verdict of TrxdPdu!Valid*; every case is replayed into the real validate/gen_msg/send_msg",
+    text="Specification -> code: the finite case space (every field at None/below/on/above each boundary, all pairs of deviations, for "
+         "every class x version x modulation x NOPE base) is enumerated completely by TLC together with the prescribed verdict; each "
+         "case is built as a real message and must be refused with ValueError and no datagram exactly when the spec says invalid.",
+    note="trusted: TLC, fakesock.py; triples of simultaneous deviations are not enumerated"),
 }
 
 NOT_YET = {}
